@@ -245,6 +245,14 @@ DESC = {
                 "serde only: no namespace, qualifiers or subpath, an unreserved name, and a version that needs escaping (caught by C16, whose business it is)"),
     "r10c14-4": ("C14", "Case-insensitive scheme via lower-casing the whole input when strip_prefix(\"pkg:\") misses.",
                 "a non-lower-case scheme plus an upper-case letter in the type: for PKG:Corp/Name the conversion receives \"corp\""),
+    "r11c16a-1": ("C16", "decode_namespace and decode_subpath decode each percent-escaped byte as a character of its own.",
+                "a non-ASCII character in the namespace or subpath (%C3%A9): it deserialises as mojibake and the PURL does not survive the round trip"),
+    "r11c16a-2": ("C16", "from_str refuses any literal character outside the URL code points.",
+                "a canonical string that contains | ^ [ ] \\ anywhere, ` { } in a qualifier value, or { } in the subpath: the library's own output is refused on deserialise"),
+    "r11c16b-1": ("C16", "Display writes the package type with fmt::Display::fmt(&*package_type, f) instead of write!, so the caller's width and precision apply to the type.",
+                "serialising into a formatter that carries flags (serde's Serializer for &mut fmt::Formatter inside format!(\"{:>12.2}\", ..)): pkg:ge/name or padded types; to_string() and serde_json are unaffected"),
+    "r11c16b-2": ("C16", "Serialize gained a guard that refuses PURLs whose namespace or subpath is 'not normalised'; its helper applies the subpath dot rule to the namespace too.",
+                "a parser-accepted PURL with a '..' or '.' namespace segment (pkg:generic/a/../b/name): serialisation fails while to_string() works"),
 }
 
 
@@ -270,6 +278,7 @@ def main():
     before8 = table(os.path.join(ROOT, "RESULTS-round8-before-strengthening.tsv"))
     before9 = table(os.path.join(ROOT, "RESULTS-round9-before-strengthening.tsv"))
     before10 = table(os.path.join(ROOT, "RESULTS-round10-before-strengthening.tsv"))
+    before11 = table(os.path.join(ROOT, "RESULTS-round11-before-strengthening.tsv"))
     for name, (prop, what, needs) in sorted(DESC.items()):
         d = os.path.join(ROOT, name)
         if not os.path.isdir(d):
@@ -286,10 +295,11 @@ def main():
         b8 = before8.get(name, {})
         b9 = before9.get(name, {})
         b10 = before10.get(name, {})
+        b11 = before11.get(name, {})
         meta = {
             "id": name,
             "property_broken": prop,
-            "origin": f"fresh sub-agent '{name.split('-')[0]}', change #{name.split('-')[1]}; it was given only the text of {prop} and a scratch worktree of /repo, nothing from /verif" + ("; round 2: it was also told which ideas round 1 had produced and asked for different ones" if name.startswith("r2") else "") + ("; round 3: it was also told which ideas rounds 1 and 2 had produced, and pointed at rarely exercised public API paths, call order, thresholds and continued use after a failure" if name.startswith("r3") else "") + ("; round 4: told the ideas of rounds 1-3 and asked to read the code paths end to end for small-effect defects" if name.startswith("r4") else "") + ("; round 5: told the ideas of rounds 1-4, with a focus per property: hash order / entry count / call sequences (C12), combinations of conversion, hook and input shape (C14), misbehaving sinks and sources only (C16)" if name.startswith("r5") else "") + ("; round 6: told the ideas of rounds 1-5 and asked to widen the search to the whole crate and to single build configurations" if name.startswith("r6") else "") + ("; round 7: told the ideas of rounds 1-6 and pointed at semantic slips (escaping sets, separators, parser/formatter and builder/parser asymmetries, type parameters, into_builder state, error paths)" if name.startswith("r7") else "") + ("; round 8: told the ideas of rounds 1-7" if name.startswith("r8") else "") + ("; round 9: told the ideas of rounds 1-8 (the C16 agent of this round did not deliver)" if name.startswith("r9") else "") + ("; round 10: told the ideas of rounds 1-9 (the C16 agent of this round did not deliver)" if name.startswith("r10") else ""),
+            "origin": f"fresh sub-agent '{name.split('-')[0]}', change #{name.split('-')[1]}; it was given only the text of {prop} and a scratch worktree of /repo, nothing from /verif" + ("; round 2: it was also told which ideas round 1 had produced and asked for different ones" if name.startswith("r2") else "") + ("; round 3: it was also told which ideas rounds 1 and 2 had produced, and pointed at rarely exercised public API paths, call order, thresholds and continued use after a failure" if name.startswith("r3") else "") + ("; round 4: told the ideas of rounds 1-3 and asked to read the code paths end to end for small-effect defects" if name.startswith("r4") else "") + ("; round 5: told the ideas of rounds 1-4, with a focus per property: hash order / entry count / call sequences (C12), combinations of conversion, hook and input shape (C14), misbehaving sinks and sources only (C16)" if name.startswith("r5") else "") + ("; round 6: told the ideas of rounds 1-5 and asked to widen the search to the whole crate and to single build configurations" if name.startswith("r6") else "") + ("; round 7: told the ideas of rounds 1-6 and pointed at semantic slips (escaping sets, separators, parser/formatter and builder/parser asymmetries, type parameters, into_builder state, error paths)" if name.startswith("r7") else "") + ("; round 8: told the ideas of rounds 1-7" if name.startswith("r8") else "") + ("; round 9: told the ideas of rounds 1-8 (the C16 agent of this round did not deliver)" if name.startswith("r9") else "") + ("; round 10: told the ideas of rounds 1-9 (the C16 agent of this round did not deliver)" if name.startswith("r10") else "") + ("; round 11: C16 only, split into a deserialise-side and a serialise-side agent, two changes each" if name.startswith("r11") else ""),
             "change": what,
             "needs_in_order_to_manifest": needs,
             "files": {"patch": "patch.diff", "demonstration": "demo.rs (drop into purl/tests/)", "author_notes": "notes.md"},
@@ -317,6 +327,11 @@ def main():
                 "verdict": r.get("verdict"),
             },
         }
+        if b11:
+            meta["checks_when_round_11_arrived"] = {
+                "note": "round 11 (C16 only, two agents x two changes). The lane through serde's Formatter serializer with width / precision flags was added after reading the agent's summary of r11c16b-1 and before any measurement, so that change counts as missed on arrival",
+                "C12": b11.get("C12"), "C14": b11.get("C14"), "C16": b11.get("C16"), "verdict": b11.get("verdict"),
+            }
         if b10:
             meta["checks_when_round_10_arrived"] = {
                 "note": "result with the checks that met round 10 (nothing was changed afterwards)",
